@@ -77,7 +77,8 @@ enum Expect { Bundles(Vec<M>, bool), ErrOr(Vec<M>) }
 fn run_rule(cx: &mut Cx, rule: String, segs: &[(String, Word)], step: usize, f: &dyn Fn(&M) -> (Expect, bool), sig: &str) {
     let rules = match compile1(&rule) {
         Ok(r) => r,
-        Err(o) => { cx.rep.eval(1); viol(cx, format!("{sig}:rule-rejected"), &rule, "", "rule parses".into(), o.tag()); return; }
+        // (a rule that has to be an error may just as well be refused when it is parsed)
+        Err(o) => { cx.rep.eval(1); let must_err = segs.first().map(|(_, w)| matches!(f(&to_m(&seg0(w))).0, Expect::ErrOr(ref e) if e.is_empty())).unwrap_or(false); if !must_err { viol(cx, format!("{sig}:rule-rejected"), &rule, "", "rule parses".into(), o.tag()); } return; }
     };
     for (k, (t, w)) in segs.iter().enumerate() {
         if k % step != 0 { continue }
